@@ -79,6 +79,10 @@ package xmodel
 //@ func MakeVersion
 //@   noverify
 //@   pure
+// The transaction a version names (the part before the offset).
+//@ func GetTxidFromVersion
+//@   noverify
+//@   pure
 //@ macro verOfInput(in) = (in.RefTxid == nil ? "" : MakeVersion(in.RefTxid, in.RefOffset))
 //@ macro verOfData(d) = (d.RefTxid == nil ? "" : MakeVersion(d.RefTxid, d.RefOffset))
 //@ macro rawKeyOf(b, k) = b + "/" + str(k)
